@@ -716,10 +716,11 @@ fn parse_expr_unaryop(
                                     // Output has const / lvalue removed
                                     (input_ty_id.to_rvalue(), expr_ty)
                                 } else {
+                                    // Vectors and matrices are negated per component
                                     let op_ety = context
                                         .module
                                         .type_registry
-                                        .register_type(ir::TypeLayer::Scalar(ir::ScalarType::Bool))
+                                        .transform_scalar(input_ty_id, ir::ScalarType::Bool)
                                         .to_rvalue();
 
                                     // Input is casted to bool rvalue
